@@ -33,6 +33,25 @@ _COMMUTES = {
 }  # fmt: skip
 
 
+def _module_literal_set(m, name):
+    """the strings of a module-level `NAME = {..}` / `frozenset({..})` / tuple / list literal, assigned once"""
+    found = [st.value for st in m.tree.body if isinstance(st, (ast.Assign, ast.AnnAssign)) and any(isinstance(t, ast.Name) and t.id == name for t in (st.targets if isinstance(st, ast.Assign) else [st.target]))]
+    rebound = any(
+        (isinstance(g, ast.Global) and name in g.names)
+        or (isinstance(g, ast.AugAssign) and isinstance(g.target, ast.Name) and g.target.id == name)
+        or (isinstance(g, ast.Attribute) and isinstance(g.value, ast.Name) and g.value.id == name and g.attr in ("add", "update", "append", "extend", "insert"))
+        for g in ast.walk(m.tree)
+    )
+    if len(found) != 1 or found[0] is None or rebound:
+        return None
+    v = found[0]
+    while isinstance(v, ast.Call) and isinstance(v.func, ast.Name) and v.func.id in ("frozenset", "set", "tuple", "list") and len(v.args) == 1 and not v.keywords:
+        v = v.args[0]
+    if isinstance(v, (ast.Set, ast.Tuple, ast.List)) and all(isinstance(e, ast.Constant) for e in v.elts):
+        return {e.value for e in v.elts}
+    return None
+
+
 def _facts(node):
     return [re.sub(r"\s+", " ", f) for f in guards.holds(node)]
 
@@ -122,6 +141,8 @@ def c21_revcommute(R):
                 vals = {e.value for e in c.elts}
             elif isinstance(c, ast.Constant):
                 vals = {c.value}
+            elif isinstance(c, ast.Name) and c.id not in defs:
+                vals = _module_literal_set(m, c.id)
             if vals is not None:
                 positive = isinstance(t.ops[0], (ast.In, ast.Eq)) == pol
                 return [("in" if positive else "notin", vals)]
